@@ -2,9 +2,13 @@ use std::any::type_name;
 use std::cell::UnsafeCell;
 use std::marker::PhantomPinned;
 use std::panic::{RefUnwindSafe, UnwindSafe};
+#[cfg(not(folo_verif_loom))]
 use std::sync::atomic::{AtomicU8, Ordering};
 use std::task::Waker;
 use std::{fmt, ptr};
+
+#[cfg(folo_verif_loom)]
+use loom::sync::atomic::{AtomicU8, Ordering};
 
 // Lifecycle phase tracked by the atomic `lifecycle` field on Awaiter.
 // Using an atomic outside UnsafeCell allows the poll path to check
@@ -184,6 +188,9 @@ impl Awaiter {
                   intended pattern; caller serializes access"
     )]
     pub(crate) unsafe fn inner_mut(&self) -> &mut Inner {
+        #[cfg(folo_verif)]
+        crate::verif_hook::inner_access(ptr::from_ref(self), true);
+
         // SAFETY: Validity — `self.inner` is an `UnsafeCell` field of `self` and lives
         // for as long as `self` does. Aliasing — the caller of this `unsafe` function
         // guarantees that access is serialized and that no other reference to this
@@ -200,11 +207,21 @@ impl Awaiter {
     /// any `&mut Inner` to the same awaiter's interior for the
     /// duration of the returned borrow.
     pub(crate) unsafe fn inner_ref(&self) -> &Inner {
+        #[cfg(folo_verif)]
+        crate::verif_hook::inner_access(ptr::from_ref(self), false);
+
         // SAFETY: Validity — `self.inner` is an `UnsafeCell` field of `self` and lives
         // for as long as `self` does. Aliasing — the caller of this `unsafe` function
         // guarantees that access is serialized and that no `&mut Inner` to this
         // awaiter's interior is live for the duration of the returned borrow.
         unsafe { &*self.inner.get() }
+    }
+}
+
+#[cfg(folo_verif)]
+impl Drop for Awaiter {
+    fn drop(&mut self) {
+        crate::verif_hook::dropped(ptr::from_ref(self));
     }
 }
 
